@@ -5,7 +5,7 @@ restore /repo.  Never commits anything in /repo."""
 import json, os, re, subprocess, sys, time
 VERIF = os.path.dirname(os.path.dirname(os.path.abspath(__file__)))
 REPO = "/repo"
-REV = {"D10": "C07", "D11": "C05", "D1": "C05", "D2": "C13", "D3": "C04", "D4": "C07", "D5": "C02", "D6": "C09", "D7": "C13", "D8": "C04", "D9": "C13", "D12": "C06", "D13": "C04", "D14": "C11", "D15": "C09"}
+REV = {"D10": "C07", "D11": "C05", "D1": "C05", "D2": "C13", "D3": "C04", "D4": "C07", "D5": "C02", "D6": "C09", "D7": "C13", "D8": "C04", "D9": "C13", "D12": "C06", "D13": "C04", "D14": "C11", "D15": "C09", "D16": "C03", "D18": "C12", "D19": "C13", "D20": "C13"}
 
 def prop_of(d):
     mp = os.path.join(VERIF, "seeded", d, "meta.json")
